@@ -18,7 +18,8 @@ SAP_START = [P + "StateMachineAccessPoint.sap_indication[confirmed request, %d l
 SAP_DEMUX = [P + "StateMachineAccessPoint.confirmation[block: demultiplexing, %s]" % k
              for k in ("ConfirmedRequest", "SimpleAck", "ComplexAck", "SegmentAck", "Error", "Reject", "Abort")]
 SAP_ANSWER = [P + "StateMachineAccessPoint.sap_confirmation"]
-IOCB = ["bacpypes.app:ApplicationIOController._app_complete", "bacpypes.app:ApplicationIOController.process_io"]
+IOCB = ["bacpypes.app:ApplicationIOController._app_complete", "bacpypes.app:ApplicationIOController.process_io",
+        "bacpypes.iocb:IOController.complete_io", "bacpypes.iocb:IOController.abort_io", "bacpypes.iocb:IOQController._trigger"]
 
 SSM_ASSUMPTIONS = [
     "the timer is the pair of trusted summaries of _Task.install_task / suspend_task (isScheduled := True / False); their own contracts over the real TaskManager are verified under C14",
